@@ -24,7 +24,7 @@ Definition is_ready (r : res) : bool :=
 
 (** one poll of a child sitting in slot [s] of block [b] *)
 Definition poll_child (k : ckind) (c : child) (b s : nat) (w : world) : child * res * world :=
-  let w := emit (ECPoll (cid c) b s (b, s)) w in
+  let w := emit (ECPoll (cid c) b s (b, s)) (g_poll w) in
   if cdone c then (c, RP, emit (ECAns (cid c) RP) w)
   else
     match cscript c with
@@ -53,7 +53,7 @@ Definition fub_new (cap : nat) (w : world) : fub * world :=
 Fixpoint push_all (b : nat) (i n : nat) (w : world) : world :=
   match n with
   | O => w
-  | S n' => push_all b (S i) n' (snd (enqueue_slot b i w))
+  | S n' => push_all b (S i) n' (snd (enqueue_slot b i (g_push w)))
   end.
 
 (** [FromIterator] *)
@@ -68,7 +68,7 @@ Inductive push_res := PushOk (f : fub) | PushFull | PushStuck.
 (** [try_push_with] *)
 Definition fub_try_push (f : fub) (c : child) (w : world) : push_res * world :=
   match sm_insert (tasks f) c with
-  | InsOk key m => (PushOk {| tasks := m; blk := blk f |}, snd (enqueue_slot (blk f) key w))
+  | InsOk key m => (PushOk {| tasks := m; blk := blk f |}, snd (enqueue_slot (blk f) key (g_push w)))
   | InsFull => (PushFull, w)
   | InsStuck => (PushStuck, emit EStuck w)
   end.
@@ -103,7 +103,7 @@ Definition pop (b : nat) (w : world) : popres * world :=
 
 Definition register (b t : nat) (w : world) : world :=
   let w := match get_blk w b with
-           | Some k => put_blk b (blk_set_reg k (Some t)) w
+           | Some k => put_blk b (blk_set_last (blk_set_reg k (Some t)) (Some t)) w
            | None => emit EStuck w
            end in
   let j := S (regk w) in
@@ -114,12 +114,12 @@ Inductive pres := PPending | PNone | PReady (i : nat) (c : child) (r : res).
 (** the drain loop of [poll_inner_no_remove]; [n] = remaining budget *)
 Fixpoint drain (k : ckind) (n : nat) (f : fub) (t : nat) (w : world) : fub * pres * world :=
   match n with
-  | O => (f, PPending, emit (ETWake t CCrate) w)
+  | O => (f, PPending, self_wake (blk f) t w)
   | S n' =>
       let '(pr, w) := pop (blk f) w in
       match pr with
       | PopNone => (f, PPending, w)
-      | PopInc => (f, PPending, emit (ETWake t CCrate) w)
+      | PopInc => (f, PPending, self_wake (blk f) t w)
       | PopReady i =>
           match sm_get (tasks f) i with
           | Some c =>
@@ -178,7 +178,7 @@ Fixpoint mb_poll_loop (n : nat) (f : fub) (t : nat) (w : world) : fub * spoll * 
       let '(f, pr, w) := poll_inner_no_remove KSrc f t w in
       match pr with
       | PReady i c RI =>
-          (f, SItem (out_tok c RI) c, snd (enqueue_slot (blk f) i w))
+          (f, SItem (out_tok c RI) c, snd (enqueue_slot (blk f) i (g_item w)))
       | PReady i c _ =>
           let '(f, w) := fub_remove f i w in mb_poll_loop n' f t w
       | PPending => (f, SPending, w)
